@@ -323,6 +323,8 @@ def oracle(case):
     C = exact_cov(W, case)
     if isinstance(C, str):
         return None
+    if C is None and case.get("se"):
+        return None   # likelihood + prior is singular: the numerical (CG) inversion cannot notice; the property is about covariances
     if C is None:
         return ("sampler draws from an operator whose (inverse) covariance does not exist", dict(kind="no-covariance", fi=case["fi"]))
     Cn = X.mnumpy(C, len(mean), len(mean))
@@ -393,6 +395,10 @@ def compare_one(ctx, W, case, real, model):
     tol = 1e-6 if uses_cg(case) else 1e-9
     if model.get("error") == "ZeroDivisionError":
         ctx.stat("skipped-inverse-of-zero-scaling")
+        ctx.case(case, nontrivial=False)
+        return
+    if case.get("se") and exact_cov(W, case) is None:
+        ctx.stat("skipped-singular-numerical-inversion")
         ctx.case(case, nontrivial=False)
         return
     if isinstance(exact_cov(W, case), str):
